@@ -118,7 +118,7 @@ class Assets:
         filesystem: FS = NativeOSFS(),
         **kwargs,
     ):
-        if simfile and kwargs:
+        if simfile is not None and kwargs:
             raise TypeError(
                 "Assets can't take both a simfile and kwargs (kwargs are only "
                 "useful if no explicit simfile is provided)"
@@ -129,7 +129,7 @@ class Assets:
         self._cache: MutableMapping[str, Optional[str]] = {}
         self._path = FSPath(filesystem)
 
-        if simfile:
+        if simfile is not None:
             self.simfile = simfile
         else:
             from simfile.dir import SimfileDirectory
